@@ -29,6 +29,7 @@ type MonC01 struct {
 	applied map[uint64]*pb.Entry
 	chain   map[uint64]uint64
 	maxIdx  uint64
+	cursor  []uint64 // per node: last index handed out in this incarnation (0 = nothing yet)
 	shared  bool
 }
 
@@ -38,6 +39,7 @@ func (m *MonC01) Prop() string { return "C01" }
 func (m *MonC01) Init(w *World) {
 	m.applied = map[uint64]*pb.Entry{}
 	m.chain = map[uint64]uint64{InitIndex: 0}
+	m.cursor = make([]uint64, len(w.Nodes))
 }
 
 func (m *MonC01) OnEvent(w *World, rec *StepRec) []*Violation {
@@ -54,8 +56,18 @@ func (m *MonC01) OnEvent(w *World, rec *StepRec) []*Violation {
 			}
 		}
 	}
+	if rec.Restarted || rec.AppliedSnap != nil {
+		m.own()
+		m.cursor[rec.Node] = 0 // the sequence restarts (after the configured index / the snapshot)
+	}
 	for _, e := range rec.AppliedEnts {
 		idx := e.GetIndex()
+		// nothing is dropped from or reordered in the committed sequence a node is handed
+		if c := m.cursor[rec.Node]; c != 0 && idx != c+1 {
+			out = append(out, &Violation{"C01", "no-drop-no-reorder", fmt.Sprintf("node %d was handed index %d right after index %d", rec.Node+1, idx, c)})
+		}
+		m.own()
+		m.cursor[rec.Node] = idx
 		if old, ok := m.applied[idx]; ok {
 			if !entEqual(old, e) {
 				out = append(out, &Violation{"C01", "applied-agree", fmt.Sprintf("node %d was handed %s at index %d, but %s was handed out there before", rec.Node+1, entStr(e), idx, entStr(old))})
@@ -92,7 +104,7 @@ func (m *MonC01) own() {
 	for k, v := range m.chain {
 		ch[k] = v
 	}
-	m.applied, m.chain, m.shared = a, ch, false
+	m.applied, m.chain, m.cursor, m.shared = a, ch, append([]uint64(nil), m.cursor...), false
 }
 
 func (m *MonC01) History(b []byte) []byte {
@@ -108,6 +120,9 @@ func (m *MonC01) History(b []byte) []byte {
 		b = binary.AppendUvarint(b, uint64(e.GetType()))
 		b = binary.AppendUvarint(b, uint64(len(e.GetData())))
 		b = append(b, e.GetData()...)
+	}
+	for _, c := range m.cursor {
+		b = binary.AppendUvarint(b, c)
 	}
 	return b
 }
